@@ -664,6 +664,27 @@ def WalletV5R1Body : SType := .sum
     (.cons "extended" (.maybe W5ExtendedActions) .nil)))))
   .nil)))
 
+/-- wallet v5 BETA. SOURCE OF THE TRANSCRIPTION: the repository itself — no schema text of the beta contract is
+shipped; the layout is the one wallet/wallet_v5_beta.go writes (`createSignedMsgBodyCell`: the 32-bit message type,
+`extV5BetaSignedMessage`, then the signature) and wallet/messages.go reads (`MessageV5Beta`):
+    wallet_id$_ network_global_id:uint32 workchain:uint8 wallet_version:uint8 subwallet_id:uint32 = WalletV5ID;  (80 bits)
+    signed_internal#73696e74 wallet_id:bits80 valid_until:uint32 msg_seqno:uint32 op:Bool signature:bits512
+      actions:^(OutList n) = InternalMsgBody;
+    signed_external#7369676e (the same fields) = ExternalMsgBody;
+(`op` = 0: the body carries out-actions; the signature covers everything before it.) -/
+def WalletV5ID : SType := .seq
+  (.cons "network_global_id" (.nat 32) (.cons "workchain" (.nat 8) (.cons "wallet_version" (.nat 8)
+  (.cons "subwallet_id" (.nat 32) .nil))))
+
+def WalletV5BetaBody : SType := .sum
+  (.cons "signed_internal" (tagBits "#73696e74") "SignedInternal" (.seq
+    (.cons "wallet_id" (.bits 80) (.cons "valid_until" (.nat 32) (.cons "msg_seqno" (.nat 32) (.cons "op" .bool
+    (.cons "signature" (.bits 512) (.cons "actions" (.ref .outList) .nil)))))))
+  (.cons "signed_external" (tagBits "#7369676e") "SignedExternal" (.seq
+    (.cons "wallet_id" (.bits 80) (.cons "valid_until" (.nat 32) (.cons "msg_seqno" (.nat 32) (.cons "op" .bool
+    (.cons "signature" (.bits 512) (.cons "actions" (.ref .outList) .nil)))))))
+  .nil))
+
 /-- abi/schemas/wallets.xml:
     send_msg#_ mode:uint8 message:^MessageRelaxed = SendMessageAction;
     (highload_wallet_signed_v2) signed#_ signature:bits512 subwallet_id:uint32 query_id:uint64
@@ -686,7 +707,7 @@ def senvList : List (String × SType) := [
   ("TransactionDescr", TransactionDescr), ("HashUpdate", HashUpdate), ("Transaction", Transaction),
   ("OutList", OutList), ("W5ExtendedAction", W5ExtendedAction), ("W5ExtendedActions", W5ExtendedActions),
   ("WalletV5R1Body", WalletV5R1Body), ("HighloadV2Body", HighloadV2Body), ("BurningConfig", BurningConfig),
-  ("MsgMetadata", MsgMetadata)]
+  ("MsgMetadata", MsgMetadata), ("WalletV5ID", WalletV5ID), ("WalletV5BetaBody", WalletV5BetaBody)]
 
 def senv : SEnv := fun n => (senvList.find? (·.1 == n)).map (·.2)
 
